@@ -362,6 +362,7 @@ def run(ctx):
     judge(ctx, c, traces, _what_bag, "bags of hypotheses")
     # word and line confidences as reported by the ALTO export
     items = [(cs, (ctx.seed % 1000) * 1000000 + i) for i, cs in enumerate(alto_cases(ctx.rng, 120 if ctx.tier == "quick" else 800))]
+    ctx.exhaustive = False       # the ALTO cases are a seeded sample of the per-character weight combinations
     traces = pmap(_alto_case, items, procs=6)
     for tr in traces:
         ctx.count(1, ("alto", tr["text"], tuple(tr["combo"])) if any(0 < x < 8 for x in tr["nums"]) else None)
